@@ -31,7 +31,7 @@ def run(res, tier, replay):
     n = 16 if tier == "quick" else 200
     scns = []; meta = []; mlines = []
     for i in range(n):
-        ncab = rng.randrange(1, 4); bufsz = rng.choice([4, 5, 7, 8, 16, 20, 21, 64, 32768])
+        ncab = rng.randrange(1, 4) if i != 1 else 1; bufsz = rng.choice([4, 5, 7, 8, 16, 20, 21, 64, 32768])
         data = bytearray(); offs = []; cabs = []
         for j in range(ncab):
             pre = rng.choice([0, 1, 2, 3, bufsz - 1, bufsz, bufsz + 1, 2 * bufsz - 3, rng.randrange(0, 200)]) if bufsz < 1000 else rng.choice([0, 1, 2, 3, rng.randrange(0, 300)])
@@ -39,9 +39,17 @@ def run(res, tier, replay):
             if rng.random() < 0.4: fl += rng.choice([b"M", b"MS", b"MSC", b"MM", b"MSCMSC"])
             if rng.random() < 0.15: fl += b"MSCF" + bytes(12) + rng.choice([bytes(rng.randrange(0, 12)), b""])   # implausible candidate (lengths 0) just before
             data += fl
-            c = gen.cab_single(rng, nfolders=1)
+            if i % 8 == 1:
+                # the smallest well-formed cabinets: one folder without data blocks, only empty members with one-letter names (62 bytes and up);
+                # the whole searched file stays below 71 bytes
+                from vlib import cabfmt
+                fo = cabfmt.Folder(("none",), [cabfmt.Member(bytes([97 + k]), data=b"") for k in range(1 if j == 0 and ncab == 1 else rng.choice([1, 2]))])
+                c = gen.CabCase(); c.folders = [fo]; c.files["in0.cab"] = cabfmt.build_single([fo], rng, with_ck=False); c.members = list(fo.members)
+                if ncab == 1: data = data[:rng.choice([0, 1, 3])]
+            else:
+                c = gen.cab_single(rng, nfolders=1)
             offs.append(len(data)); cabs.append(c); data += c.files["in0.cab"]
-        data += filler(rng, rng.choice([0, 1, 19, 20, 40]))
+        data += filler(rng, rng.choice([0, 1, 19, 20, 40]) if i % 8 != 1 else rng.choice([0, 1, 3]))
         sc = scenario.Scn().file("in0.cab", bytes(data)).op("cab_new").op("cab_param", 0, bufsz).op("cab_search", "c0", "in0.cab")
         for j in range(ncab):
             for mi in range(len(cabs[j].members)): sc.op("cab_extract", "c0", mi, "out%d_%d" % (j, mi), j)
